@@ -81,13 +81,13 @@ CHECKS = {
    design="DESIGN.md §5 C15"),
  "C16": dict(
    technique="property-based testing: one-deviation echoes for commands; fault injection at every step of every user request kind",
-   text="(1) Command sets over the five control types, 8/16-bit indices, 1-3 headers, direct or select-before-operate; the harness echoes faithfully or with exactly one deviation at step 1 or 2; success iff faithful, OPERATE only after a faithful SELECT echo with seq+1 and identical objects, nothing sent after a deviation. (2) Twelve request kinds (read, commands, three time-sync procedures, restarts, dead-band write, empty-response request, link check, file read with a FileReader) x fault after step k (reply lost, disconnect, channel disabled, association removed, none): the user future resolves exactly once with Ok iff no fault, the FileReader gets exactly one terminal callback, within (steps+1) response timeouts of virtual time.",
-   note="Master shutdown by dropping all handles is not generated. Directory read / file info / open / write / close / auth share the one-step machinery and are not generated separately.",
+   text="(1) Command sets over the five control types, 8/16-bit indices, 1-3 headers, direct or select-before-operate; the harness echoes faithfully or with exactly one deviation at step 1 or 2; success iff faithful, OPERATE only after a faithful SELECT echo with seq+1 and identical objects, nothing sent after a deviation; headers are closed explicitly or by the builder itself, and every step's objects on the wire are compared with a reference encoding of what the user asked for. (2) Twelve request kinds (read, commands, three time-sync procedures, restarts, dead-band write, empty-response request, link check, file read with a FileReader) x fault after step k (reply lost, disconnect, channel disabled, association removed, none): the user future resolves exactly once with Ok iff no fault and otherwise with the corresponding error (reply lost -> ResponseTimeout, disable -> Disabled, disconnect -> Link), the FileReader gets exactly one terminal callback, within (steps+1) response timeouts of virtual time.",
+   note="Master shutdown by dropping all handles is not generated; which error the in-flight request of a removed association gets is not judged. Directory read / file info / open / write / close / auth share the one-step machinery and are not generated separately.",
    design="DESIGN.md §5 C16"),
  "C17": dict(
    technique="stateful property-based testing against the ordering relation of the statement (scripted outstation)",
-   text="Generated association configurations and a scripted outstation (per request: proper reply with generated indication bits, IIN2 rejection, unacceptable reply, silence; injected unsolicited responses and reconnects). A model of what is still due (clear restart < disable < integrity < time sync < enable < polls) is updated from the indications the harness itself sent; every transmitted request is checked against it, retry instants against the exponential back-off, and unsolicited data against the integrity-poll gate.",
-   note="After an IIN2 rejection of DISABLE/ENABLE giving up and retrying are both accepted; requests already on the wire when an indication is injected are judged leniently.",
+   text="Generated association configurations and a scripted outstation (per request: proper reply with generated indication bits, IIN2 rejection with or without indication bits, unacceptable reply, silence; injected unsolicited responses and reconnects). A model of what is still due (clear restart < disable < integrity < time sync < enable < polls) is updated from the indications the harness itself sent (a reply's indications are applied after the task's own result, so a restart shown in the reply to the integrity poll or to ENABLE_UNSOLICITED re-arms that very step); every transmitted request is checked against it, retry instants against the exponential back-off, and unsolicited data against the integrity-poll gate.",
+   note="After an IIN2 rejection of DISABLE/ENABLE giving up and retrying are both accepted; a request already on the wire when an indication is injected is not judged for order, and does not count as the repetition a restart calls for.",
    design="DESIGN.md §5 C17"),
  "C18": dict(
    technique="property-based testing of the paired simulation with scripted per-message delays; metamorphic accuracy bound derived from the statement",
@@ -96,8 +96,8 @@ CHECKS = {
    design="DESIGN.md §5 C18"),
  "C19": dict(
    technique="stateful property-based testing over exactly time-stamped request traces (virtual clock)",
-   text="1-4 associations with 0-3 polls each and optional keep-alive, user READs and poll demands at generated times, an outstation that answers promptly, late or never. Checked on the trace: one request outstanding at a time, user requests in order and ahead of polls, polls never early and never late while the channel is idle, nothing due is left waiting at quiescence, keep-alive only after the configured silence, bounded task polls while idle (no spinning).",
-   note="A demand issued while that very poll is running is not judged. Turn-taking between associations is asserted through the idle/ordering clauses rather than a separate round-robin clause.",
+   text="1-4 associations with 0-3 polls each and optional keep-alive, user READs and WRITEs and poll demands at generated times, outstations that answer promptly, late or never and send null unsolicited responses at any moment. Checked on the trace: one request outstanding at a time, user requests in order and ahead of polls, polls never early and never late while the channel is idle, nothing due is left waiting at quiescence, keep-alive only after the configured silence of THAT outstation, associations take turns (between two user requests of one association every other association whose request has waited since before the first is served), bounded task polls while idle (no spinning).",
+   note="A demand issued while that very poll is running is not judged. Requests refused with TooManyRequests (documented back-pressure, 16 waiting requests) leave the model's queue; the turn-taking clause is suspended once 15 requests wait at the same time (the master may not have seen all of them).",
    design="DESIGN.md §5 C19"),
  "C20": dict(
    technique="exhaustive enumeration of enum conversions (variant lists read back from the generated FFI) + property-based struct conversion checks + differential (binding vs native) model-based database op sequences",
